@@ -1,5 +1,5 @@
 (* Props/C12.v -- property C12: every scalar value survives serialization and deserialization unchanged. *)
-From SS Require Import Model.SerScalar Proofs.SerScalar Proofs.SerScalarRead.
+From SS Require Import Model.SerScalar Proofs.SerScalar Proofs.SerScalarRead Model.BlockScalar Proofs.BlockScalar.
 Local Open Scope N_scope.
 
 (* Double-quoted style: for EVERY string (any scalar values, any length) the escaper's output, read
@@ -116,3 +116,53 @@ Check C12_plain_key_reads_back_untyped : forall c s y12,
   is_plain_safe s && is_plain_value_safe s y12 true && negb (has_trailing_ws s) = true ->
   deserialize_any_scalar c (mkScalar s Plain TAG_None) = RStr s.
 Print Assumptions C12_plain_key_reads_back_untyped.
+
+(* Literal block scalars: every string (any characters, any number of leading spaces, blank lines and trailing line
+   feeds -- the empty string and longer runs of line feeds included) BUT the lone line feed, written as a literal
+   block at ANY body indentation, reads back as itself: the indentation indicator is written exactly when detection
+   from the first non-empty line would go wrong, the chomping indicator restores the trailing line feeds.  The
+   reader is the model of YAML 1.2 section 8.1 in Model/BlockScalar.v, tied to the parser by the CLitRead cases.
+   The full statement (no exception) is FALSE of the code: LitStr("\n") is written `|` + one blank line, which
+   reads back as the empty string (known finding F49; a test of the suite pins that output) -- the witness is
+   C12_literal_block_lone_break_refuted. *)
+Theorem C12_literal_block_roundtrip_partial : forall ind v, v <> [10%N] -> read_back ind (emit_literal ind v) = Some v.
+Proof. exact literal_block_roundtrip. Qed.
+Check C12_literal_block_roundtrip_partial : forall ind v, v <> [10%N] -> read_back ind (emit_literal ind v) = Some v.
+Print Assumptions C12_literal_block_roundtrip_partial.
+
+Theorem C12_literal_block_lone_break_refuted : forall ind, read_back ind (emit_literal ind [10%N]) = Some [].
+Proof. exact literal_block_lone_break_refuted. Qed.
+Check C12_literal_block_lone_break_refuted : forall ind, read_back ind (emit_literal ind [10%N]) = Some [].
+Print Assumptions C12_literal_block_lone_break_refuted.
+
+Theorem C12_literal_block_shape : forall ind v,
+  let b := emit_literal ind v in
+  let '(content, k) := trim_end_nl v in
+  b_explicit b = Nat.ltb 0 (first_line_leading_spaces (lines_of content)) /\
+  b_chomp b = (match k with 0%nat => Strip | 1%nat => Clip | _ => Keep end) /\
+  Forall (fun l => (ind <= lead_sp l)%nat) (b_lines b).
+Proof. exact literal_block_shape. Qed.
+Check C12_literal_block_shape : forall ind v,
+  let b := emit_literal ind v in
+  let '(content, k) := trim_end_nl v in
+  b_explicit b = Nat.ltb 0 (first_line_leading_spaces (lines_of content)) /\
+  b_chomp b = (match k with 0%nat => Strip | 1%nat => Clip | _ => Keep end) /\
+  Forall (fun l => (ind <= lead_sp l)%nat) (b_lines b).
+Print Assumptions C12_literal_block_shape.
+
+(* " a\n\n  b\n\n" needs the indicator and keep chomping, "x\ny" neither; without the indicator the first would be
+   read with the wrong indentation *)
+Example C12_literal_examples :
+  emit_literal 2 [32; 97; 10; 10; 32; 32; 98; 10; 10]%N =
+    mkBlock true Keep [[32; 32; 32; 97]; [32; 32]; [32; 32; 32; 32; 98]; [32; 32]]%N /\
+  read_back 2 (emit_literal 2 [32; 97; 10; 10; 32; 32; 98; 10; 10]%N) = Some [32; 97; 10; 10; 32; 32; 98; 10; 10]%N /\
+  emit_literal 4 [120; 10; 121]%N = mkBlock false Strip [[32; 32; 32; 32; 120]; [32; 32; 32; 32; 121]]%N /\
+  read_literal None Keep [[32; 32; 32; 97]; [32; 32]; [32; 32; 32; 32; 98]; [32; 32]]%N = Some [97; 10; 10; 32; 98; 10; 10]%N.
+Proof. exact literal_examples. Qed.
+Check C12_literal_examples :
+  emit_literal 2 [32; 97; 10; 10; 32; 32; 98; 10; 10]%N =
+    mkBlock true Keep [[32; 32; 32; 97]; [32; 32]; [32; 32; 32; 32; 98]; [32; 32]]%N /\
+  read_back 2 (emit_literal 2 [32; 97; 10; 10; 32; 32; 98; 10; 10]%N) = Some [32; 97; 10; 10; 32; 32; 98; 10; 10]%N /\
+  emit_literal 4 [120; 10; 121]%N = mkBlock false Strip [[32; 32; 32; 32; 120]; [32; 32; 32; 32; 121]]%N /\
+  read_literal None Keep [[32; 32; 32; 97]; [32; 32]; [32; 32; 32; 32; 98]; [32; 32]]%N = Some [97; 10; 10; 32; 98; 10; 10]%N.
+Print Assumptions C12_literal_examples.
